@@ -21,11 +21,11 @@ CONFIG = {
               'floors': {'evaluations': 5000, 'distinct_nontrivial': 1200, 'to_rdkit.compared': 2500, 'from_rdkit.compared': 700,
                          'roundtrip.compared': 2500, 'stereo.labels-roundtripped': 1500, 'from_rdkit.explicit-h.all-hydrogens': 120,
                          'from_rdkit.explicit-h.deuterium-on-centre': 120, 'from_rdkit.explicit-h.position-0': 10,
-                         'from_rdkit.explicit-h.position-2': 60}},
+                         'from_rdkit.explicit-h.position-2': 60, 'dative.bonds-checked': 60}},
     'thorough': {'shards': 16, 'budget_s': 1500, 'n_corpus': 4200, 'k_renum': 8,
                  'floors': {'evaluations': 80000, 'distinct_nontrivial': 8000, 'to_rdkit.compared': 30000, 'from_rdkit.compared': 4000,
                             'roundtrip.compared': 30000, 'stereo.labels-roundtripped': 15000, 'from_rdkit.explicit-h.all-hydrogens': 600,
-                            'from_rdkit.explicit-h.deuterium-on-centre': 600}},
+                            'from_rdkit.explicit-h.deuterium-on-centre': 600, 'dative.bonds-checked': 150}},
 }
 
 
@@ -243,6 +243,70 @@ def explicit_hydrogens(ctx, text, rng):
                 text, variant, perm[:60], out, have, want), w)
 
 
+DATIVE = ['C[Se](C)~[Pd](Cl)Cl', 'Cl[Pt](Cl)(~N)~N', 'CP(C)(C)~[Pd]~P(C)(C)C', '[Cu+2]1~NCCN~1', 'CN(C)~[Sc](Cl)(Cl)Cl', 'C[As](C)(C)~[Ni](Cl)Cl',
+          'C[Te](C)~[Pt](Cl)Cl', 'CO~[Mg](Br)C', 'N#C~[Fe]', 'CC#N~[Cu]Cl', 'C[Se]~[Sc](Cl)(Cl)Cl', 'CSC~[Sc](Cl)(Cl)Cl', 'C[Sb](C)(C)~[Rh]Cl', 'CSC~[Y](Cl)(Cl)Cl',
+          'C[Se](C)~[Sc](Cl)(Cl)Cl', 'CO(C)~[Ti](Cl)(Cl)(Cl)Cl', 'Cl[Pd](Cl)(~[Se](C)C)~[Se](C)C', 'CCO~[La](Cl)(Cl)Cl',
+          'C1CCN(CC1)~[Zn](Cl)Cl', 'CSe~[Hg]Cl', 'C[Si](C)(C)C.CN~[Cu]Cl', 'FC(F)F.CS(C)~[Au]Cl']
+
+
+def dative(ctx, rng, k_renum):
+    """coordinate bonds: the RDKit molecule has a dative bond from the donor to the metal whichever of the two is numbered first,
+    atoms keep element / charge / hydrogens, and the way back gives the same molecule"""
+    from rdkit import Chem
+    for k, text in enumerate(DATIVE):
+        if not ctx.mine(k):
+            continue
+        try:
+            base = smiles(text)
+            base.kekule()
+            base.thiele()
+        except Exception:
+            ctx.count('dative.not-readable')
+            continue
+        if base.check_valence():
+            ctx.count('dative.valence-invalid-skipped')
+            continue
+        for j in range(k_renum + 2):
+            m = base if not j else T.redescribe(base, rng)[0]
+            w = {'smiles': text, 'form': 'dative'}
+            ctx.evaluations += 1
+            try:
+                rd = to_rdkit_molecule(m)
+            except Exception as e:
+                ctx.violation('to_rdkit-raises/%s' % type(e).__name__, '%s numbered %s: %r' % (text, list(m._atoms)[:8], e), w)
+                continue
+            ctx.count('dative.converted')
+            nums = list(m._atoms)
+            bad = None
+            for i, n in enumerate(nums):
+                a, ra = m._atoms[n], rd.GetAtomWithIdx(i)
+                if (a.atomic_number, a.charge, a.implicit_hydrogens) != (ra.GetAtomicNum(), ra.GetFormalCharge(), ra.GetTotalNumHs()):
+                    bad = '%s atom %d: library %s charge %d H %s, RDKit %s charge %d H %d' % (text, n, a.atomic_symbol, a.charge, a.implicit_hydrogens,
+                                                                                              ra.GetSymbol(), ra.GetFormalCharge(), ra.GetTotalNumHs())
+                    break
+            if bad:
+                ctx.violation('to_rdkit-atom-differs/dative', bad, w)
+                continue
+            for b in rd.GetBonds():
+                if b.GetBondType() == Chem.BondType.DATIVE:
+                    ctx.count('dative.bonds-checked')
+                    donor, acceptor = m._atoms[nums[b.GetBeginAtomIdx()]], m._atoms[nums[b.GetEndAtomIdx()]]
+                    if donor.is_forming_single_bonds is False and acceptor.is_forming_single_bonds is not False:
+                        bad = '%s: dative bond drawn from %s to %s' % (text, donor.atomic_symbol, acceptor.atomic_symbol)
+            if bad:
+                ctx.violation('to_rdkit-dative-bond-reversed', bad, w)
+                continue
+            try:
+                back = from_rdkit_molecule(rd)
+            except Exception as e:
+                ctx.violation('from_rdkit-raises/%s' % type(e).__name__, '%s: %r' % (text, e), w)
+                continue
+            r1 = T.mol_record(m, {n: i + 1 for i, n in enumerate(m._atoms)})
+            r2 = T.mol_record(back, {n: i + 1 for i, n in enumerate(back._atoms)})
+            if r1 != r2:
+                ctx.violation('roundtrip-differs/dative', '%s: %s' % (text, T.diff_records(r1, r2)[:3]), w)
+
+
 def worker(ctx):
     cfg = CONFIG[ctx.tier]
     rng = ctx.rng
@@ -250,6 +314,7 @@ def worker(ctx):
     from rdkit import Chem, RDLogger
     from rdkit.Chem import AllChem
     RDLogger.DisableLog('rdApp.*')
+    dative(ctx, rng, cfg['k_renum'])
     c = T.corpus()
     ids = list(range(len(c)))
     _random.Random(ctx.seed).shuffle(ids)
